@@ -20,6 +20,8 @@ import GgrsModel.Model.Spectator
 import GgrsModel.Proofs.Monad
 import GgrsModel.Proofs.SpecRing
 import GgrsModel.Proofs.SpecHost
+import GgrsModel.Proofs.DelayStep
+import GgrsModel.Proofs.LockstepNet
 
 namespace Ggrs.Spectator
 
@@ -122,5 +124,62 @@ theorem C06_host_rows (x y : P2P × TLState) (h0 : ∃ gh, SessInv x.1 gh x.2 []
   obtain ⟨confirmed, s1, s2, gh1, hconf, hsp, hn1, _, hoff, hn', hl1, hl2⟩ :=
     rollbackTick_offers y.1 s' gh y.2 [] reqs' now hy hny hadv
   exact ⟨gh, gh1, confirmed, s1, s2, hy, hsp, hconf, hn1, hoff, hn', hl1, hl2⟩
+
+end Ggrs
+
+namespace Ggrs
+
+/-- `C06_host_rows` for runs that also contain `set_input_delay` calls of the host's local players. -/
+theorem C06_host_rows_delay (x y : P2P × TLState) (h0 : HInv x) (hrun : DStar x y)
+    (now : Nat) (s' : P2P) (reqs' : List Request) (hadv : y.1.advanceRollbackFrame now [] = .ok (s', reqs')) :
+    ∃ (gh gh1 : Ghost) (confirmed : Frame) (s1 s2 : P2P), SessInv y.1 gh y.2 [] ∧ gh1.specs = gh.specs ∧
+      y.1.confirmedFrame = .ok confirmed ∧ s1.nextSpectatorFrame = y.1.nextSpectatorFrame ∧
+      Offers gh1 y.1.sync.queues.length now s1 s2 ∧ s'.nextSpectatorFrame = s2.nextSpectatorFrame ∧
+      y.1.nextSpectatorFrame ≤ s'.nextSpectatorFrame ∧
+      s'.nextSpectatorFrame ≤ max y.1.nextSpectatorFrame (confirmed + 1) := by
+  obtain ⟨⟨gh, hy, _⟩, hny⟩ := HInv_run x y h0 hrun
+  obtain ⟨confirmed, s1, s2, gh1, hconf, hsp, hn1, _, hoff, hn', hl1, hl2⟩ :=
+    rollbackTick_offers y.1 s' gh y.2 [] reqs' now hy hny hadv
+  exact ⟨gh, gh1, confirmed, s1, s2, hy, hsp, hconf, hn1, hoff, hn', hl1, hl2⟩
+
+end Ggrs
+
+namespace Ggrs
+
+/-- **C06 and C11, the network side of a lockstep session (no disconnected players).** After any
+interleaving of remote-input arrivals and lockstep `advance_frame` calls, one more call hands its
+remote endpoints only consecutive, complete frames carrying the local players' queue inputs
+(`Sends`) and offers its spectators the next frames in order, each the row of every player's real
+input (`Offers`), never beyond `min(confirmed_frame(), current_frame() - 1)`. -/
+theorem C06_lockstep_net (x y : P2P × TLState) (h0 : LkNetInv x) (hrun : LkStar x y)
+    (now : Nat) (s' : P2P) (reqs' : List Request) (hadv : y.1.advanceLockstepFrame now [] = .ok (s', reqs')) :
+    ∃ (gh gh1 gh' : Ghost) (sA sB sC sD : P2P), LkInv y.1 gh y.2 ∧ LkInv s' gh' (execReqs y.2 reqs') ∧
+      gh'.specs = gh1.specs ∧ (∀ p, PrefixOf (gh.specs p).vals (gh1.specs p).vals) ∧
+      sA.lastSentOutgoingInputFrame = y.1.lastSentOutgoingInputFrame ∧ Sends gh1 now sA sB ∧
+      s'.lastSentOutgoingInputFrame = sB.lastSentOutgoingInputFrame ∧
+      sC.nextSpectatorFrame = y.1.nextSpectatorFrame ∧ Offers gh1 y.1.sync.queues.length now sC sD ∧
+      s'.nextSpectatorFrame = sD.nextSpectatorFrame := by
+  obtain ⟨⟨gh, hl, hg⟩, hn⟩ := LkNetInv_run x y h0 hrun
+  obtain ⟨gh1, gh', sA, sB, sC, sD, hl', _, _, hsp, hpre, a1, a2, a3, b1, b2, b3⟩ :=
+    lockstepTick_net y.1 s' gh y.2 now reqs' hl hg hn hadv
+  exact ⟨gh, gh1, gh', sA, sB, sC, sD, hl, hl', hsp, hpre, a1, a2, a3, b1, b2, b3⟩
+
+end Ggrs
+
+namespace Ggrs
+
+/-- `C06_lockstep_net` for runs that also contain `set_input_delay` calls of local players. -/
+theorem C06_lockstep_net_delay (x y : P2P × TLState) (h0 : LkNetInv x) (hrun : DLkStar x y)
+    (now : Nat) (s' : P2P) (reqs' : List Request) (hadv : y.1.advanceLockstepFrame now [] = .ok (s', reqs')) :
+    ∃ (gh gh1 gh' : Ghost) (sA sB sC sD : P2P), LkInv y.1 gh y.2 ∧ LkInv s' gh' (execReqs y.2 reqs') ∧
+      gh'.specs = gh1.specs ∧ (∀ p, PrefixOf (gh.specs p).vals (gh1.specs p).vals) ∧
+      sA.lastSentOutgoingInputFrame = y.1.lastSentOutgoingInputFrame ∧ Sends gh1 now sA sB ∧
+      s'.lastSentOutgoingInputFrame = sB.lastSentOutgoingInputFrame ∧
+      sC.nextSpectatorFrame = y.1.nextSpectatorFrame ∧ Offers gh1 y.1.sync.queues.length now sC sD ∧
+      s'.nextSpectatorFrame = sD.nextSpectatorFrame := by
+  obtain ⟨⟨gh, hl, hg⟩, hn⟩ := LkNetInv_drun x y h0 hrun
+  obtain ⟨gh1, gh', sA, sB, sC, sD, hl', _, _, hsp, hpre, a1, a2, a3, b1, b2, b3⟩ :=
+    lockstepTick_net y.1 s' gh y.2 now reqs' hl hg hn hadv
+  exact ⟨gh, gh1, gh', sA, sB, sC, sD, hl, hl', hsp, hpre, a1, a2, a3, b1, b2, b3⟩
 
 end Ggrs
